@@ -293,7 +293,8 @@ func (v *Verifier) step(st *State, b *ssa.BasicBlock, i int, in ssa.Instruction)
 	case *ssa.FieldAddr:
 		p := v.val(st, x.X)
 		v.safe(st, "nil:fieldaddr", ptrNonNil(p), in)
-		v.bind(st, x, pFld(p, x.Field))
+		sn := v.sortOf(x.X.Type().Underlying().(*types.Pointer).Elem())
+		v.bind(st, x, v.D.fieldPtr(p, sn, x.Field))
 		return true
 	case *ssa.Field:
 		s := v.val(st, x.X)
@@ -394,6 +395,7 @@ func (v *Verifier) step(st *State, b *ssa.BasicBlock, i int, in ssa.Instruction)
 			ct = mk("Fn", name)
 		}
 		st.assume(tNot(mk("Bool", "=", ct, tNilF)))
+		v.checkCaptures(st, fn, bs, in)
 		v.bind(st, x, ct)
 		return true
 	case *ssa.Range:
